@@ -416,7 +416,15 @@ def copypath(source: str, dest: str) -> None:
             if not os.path.exists(path):
                 os.mkdir(path)
             root = path
-        shutil.copy(source, dest)
+        existed = os.path.lexists(dest)
+        try:
+            shutil.copy(source, dest)
+        except OSError:
+            # a copy the system refuses half way (file size limit, disk
+            # full) must not stay behind as a truncated file
+            if not existed and os.path.isfile(dest):
+                os.remove(dest)
+            raise
 
 
 def toggle_debug_mode(switch_on: bool) -> None:
